@@ -11,10 +11,12 @@ from vlib.case import Out, Sub, jsonable, rng_from
 
 PROPERTY = "C15"
 TECHNIQUE = ("stateful property-based testing (Hypothesis RuleBasedStateMachine) + bounded-exhaustive enumeration of operation "
-             "sequences; model = a freshly constructed object given copies of the final state")
+             "sequences; model = a freshly constructed object given the final state as the CALLER set it (masses, NAC parameters kept on the model side, "
+             "never read back from the object under test)")
 RULE = ("Histories over the state-changing API: force_constants= (full|compact, fresh array | non-owning view | list), "
         "produce_force_constants, symmetrize_force_constants(level), ..._by_space_group, set_force_constants_zero_with_radius, "
-        "nac_params= (None|wang|gonze), masses=, dataset= / forces=, copy(); interleaved with queries (q-points with all "
+        "nac_params= (None|wang|gonze), masses= (random | one atom | 5e-7 relative change), dataset= / forces=, copy() followed by mutation of the copy; "
+        "the cell object handed to the constructor is guarded; interleaved with queries (q-points with all "
         "outputs, mesh + thermal properties, random displacements) that populate caches; three small crystals; constructor "
         "variants (group_velocity_delta_q, is_symmetry). 'enum': ALL sequences of length <= 2 (quick) / <= 3 (thorough) over a "
         "canonical 15-letter alphabet, for the three dynamical-matrix classes. Non-trivial: >= 2 state changes of different "
